@@ -1,0 +1,46 @@
+//go:build verif
+
+package go_clipper2
+
+import (
+	"sync"
+	"sync/atomic"
+)
+
+// Event recorder for the verification harness (build tag verif only): the places where the
+// engine intentionally discards or merges geometry report what they touched, so that a region
+// mismatch can be attributed to a listed known finding by call site and zone.
+
+type VEvent struct {
+	Kind string
+	Pts  []Point64
+	Vals []float64
+}
+
+var (
+	vTraceOn     atomic.Bool
+	vTraceMu     sync.Mutex
+	vTraceEvents []VEvent
+)
+
+// VTraceRun runs f with the recorder on and returns the events it produced.
+func VTraceRun(f func()) []VEvent {
+	vTraceMu.Lock()
+	vTraceEvents = nil
+	vTraceMu.Unlock()
+	vTraceOn.Store(true)
+	defer vTraceOn.Store(false)
+	f()
+	vTraceMu.Lock()
+	defer vTraceMu.Unlock()
+	return vTraceEvents
+}
+
+func vEvent(kind string, vals []float64, pts ...Point64) {
+	if !vTraceOn.Load() {
+		return
+	}
+	vTraceMu.Lock()
+	vTraceEvents = append(vTraceEvents, VEvent{Kind: kind, Pts: append([]Point64{}, pts...), Vals: vals})
+	vTraceMu.Unlock()
+}
